@@ -66,7 +66,7 @@ pub fn state_from(j: &J) -> Option<DeliveryState> {
         "rejected" => DeliveryState::Rejected(Rejected { error: j.get("cond").and_then(|c| c.as_str()).filter(|c| !c.is_empty()).map(|c| definitions::Error::new(ErrorCondition::Custom(Symbol::from(c)), None, None)) }),
         "released" => DeliveryState::Released(Released {}),
         "modified" => DeliveryState::Modified(Modified { delivery_failed: Some(true), undeliverable_here: None, message_annotations: None }),
-        "received" => DeliveryState::Received(Received { section_number: 0, section_offset: 0 }),
+        "received" => DeliveryState::Received(Received { section_number: j.get("sn").and_then(|x| x.as_u64()).unwrap_or(0) as u32, section_offset: j.get("so").and_then(|x| x.as_u64()).unwrap_or(0) }),
         "declared" => DeliveryState::Declared(Declared { txn_id: Binary::from(txn) }),
         "txn" => {
             let inner = match j["cond"].as_str().unwrap_or("none") { "accepted" => Some(Outcome::Accepted(Accepted {})), "rejected" => Some(Outcome::Rejected(Rejected { error: None })), "released" => Some(Outcome::Released(Released {})), "modified" => Some(Outcome::Modified(Modified { delivery_failed: None, undeliverable_here: None, message_annotations: None })), _ => None };
@@ -159,7 +159,11 @@ pub fn perf_from(name: &str, f: &J, sh: &Shifts, eut_is_sender: impl Fn(u32) -> 
             Performative::Attach(Attach { name: f["name"].as_str().unwrap_or("l").to_string(), handle: Handle(num(f, "h", 0) as u32), role: if sender { Role::Sender } else { Role::Receiver },
                 snd_settle_mode: snd_mode(num(f, "snd", 2)), rcv_settle_mode: rcv_mode(num(f, "rcv", 0)),
                 source: if f.get("src").and_then(|x| x.as_bool()).unwrap_or(true) { Some(Box::new(Source::builder().address("q").build())) } else { None },
-                target, unsettled: None, incomplete_unsettled: false, initial_delivery_count: if sender { Some(real(num(f, "idc", 0).max(0), dcs)) } else { opt(f, "idc", dcs) },
+                target,
+                // "uns": the unsettled map of a resuming peer: [{tag: [bytes], st: <state> | "null"}]; "incomplete": the incomplete-unsettled flag
+                unsettled: f.get("uns").and_then(|u| u.as_array()).map(|a| { let mut m = serde_amqp::primitives::OrderedMap::new();
+                    for x in a { m.insert(serde_bytes::ByteBuf::from(crate::absval::bytes(&x["tag"])), if x["st"].is_string() && x["st"] == "null" { None } else { state_from(&x["st"]) }); } m }),
+                incomplete_unsettled: boolean(f, "incomplete"), initial_delivery_count: if sender { Some(real(num(f, "idc", 0).max(0), dcs)) } else { opt(f, "idc", dcs) },
                 max_message_size: { let v = num(f, "mms", -1); if v < 0 { None } else { Some(v as u64) } }, offered_capabilities: None, desired_capabilities: None, properties: None })
         }
         "flow" => {
